@@ -638,6 +638,20 @@ def r7_apply(src, log, map_kind="result"):
             t = toks[i]
             if t.text == "." and k + 2 < len(s) and toks[s[k + 1]].kind == "ident" and toks[s[k + 2]].text == "(":
                 meth = toks[s[k + 1]].text
+                if meth == "ok" and toks[s[k + 3]].text == ")":
+                    # Result::ok():  (match X { Ok(v) => Some(v), Err(_) => None })  -- only at the end of a chain already
+                    # rewritten by R7 (receiver is a parenthesised match), so plain `.ok()` calls elsewhere are untouched
+                    if toks[s[k - 1]].text != ")":
+                        continue
+                    r0 = s.index(m[s[k - 1]])
+                    recv = src[toks[s[r0]].start:t.start].strip()
+                    if not recv.startswith("(match"):
+                        continue
+                    src = _replace(src, [(toks[s[r0]].start, toks[s[k + 3]].end, "(match %s { Ok(v__) => Some(v__), Err(_) => None })" % recv)])
+                    log["R7"] = log.get("R7", 0) + 1
+                    log.setdefault("R7.fired", []).append("ok")
+                    changed = True
+                    break
                 if meth not in ("map", "ok_or_else", "or_else", "then", "map_err", "ok_or", "and_then", "unwrap_or_else"):
                     continue
                 o = s[k + 2]; c = m[o]
